@@ -197,7 +197,9 @@ type c09S1Call struct {
 
 // c09RunS1 runs one scenario and returns what its oracles found (the caller decides about a scaled re-run).
 func c09RunS1(c *Ctx, sp c09S1Spec) (viols []c09S1Viol) {
-	violate := func(kind, what, detail string, replay any) { viols = append(viols, c09S1Viol{kind, what, detail, replay}) }
+	violate := func(kind, what, detail string, replay any) {
+		viols = append(viols, c09S1Viol{kind, what, detail, replay})
+	}
 	prompt := sp.Bound
 	if prompt == 0 {
 		prompt = 1500 * time.Millisecond
